@@ -42,7 +42,7 @@ SameW(a, b) == \/ a.cmd \in FreeForm
 
 (* ---- daemon transducer: can the daemon emit line L now? ---- *)
 ArgMatters == {"phases", "preload_eclass", "clear_preloaded_eclasses"}
-SameR(a, L) == a.cmd = L.cmd /\ (a.cmd \notin ArgMatters \/ a.arg = L.arg)
+SameR(a, L) == a.data \/ (a.cmd = L.cmd /\ (a.cmd \notin ArgMatters \/ a.arg = L.arg))
 DT(ok, dd, q, o) == [ok |-> ok, d |-> dd, c2d |-> q, dout |-> o]
 RECURSIVE DEmit(_, _, _, _, _)
 DEmit(dd, q, o, L, fuel) ==
@@ -85,7 +85,10 @@ Step(e) ==
              bad == IF pe.mode \in {"idle", "done"} /\ w0 = <<>> THEN {} ELSE {"PyOutcome"} IN
          S(bad, Settle(PyStart([Idle(pe) EXCEPT !.mode = "idle", !.pend = pe.pend], e.kind, e.need, e.have), 12), d0, q0, o0, <<>>, FALSE)
     [] e.ev = "w" ->
-         IF w0 # <<>> THEN        \* a reaction to the line just read (inherit / bashrc / helper reply)
+         IF w0 # <<>> /\ Head(w0).cmd = "end_request" /\ e.m.cmd = "path" /\ p.mode = "handler" THEN
+             \* one more profile bashrc instead of end_request (their number is the caller's business)
+             S({}, [p EXCEPT !.mode = "bashrc", !.sub = 1], d0, Append(q0, M(e.m)), o0, <<Msg("bashrcfile", "-", p.rid)>>, FALSE)
+         ELSE IF w0 # <<>> THEN        \* a reaction to the line just read (inherit / bashrc / helper reply)
              S(IF SameW(Head(w0), M(e.m)) THEN {} ELSE {"PyWrite"}, p, d0, Append(q0, M(e.m)), o0, Tail(w0), FALSE)
          ELSE IF PyWriting(p) /\ SameW(Head(p.script).m, M(e.m))
          THEN S({}, Settle(Next1(p), 12), d0, Append(q0, M(e.m)), o0, <<>>, FALSE)
